@@ -353,6 +353,11 @@ func (blockchain *Blockchain) BeginBlock(req abciTypes.RequestBeginBlock) abciTy
 		if candidate == nil || candidate.Status == candidates.CandidateStatusOffline || blockchain.stateDeliver.Validators.GetByTmAddress(address) == nil {
 			continue
 		}
+		// a second piece of evidence against a validator punished in this block
+		// would slash the unbonding funds just created from its stakes again
+		if blockchain.stateDeliver.Validators.GetByTmAddress(address).IsToDrop() {
+			continue
+		}
 
 		blockchain.stateDeliver.FrozenFunds.PunishFrozenFundsWithID(height, height+types.GetUnbondPeriod(), candidate.ID)
 		blockchain.stateDeliver.Validators.PunishByzantineValidator(address)
